@@ -203,10 +203,9 @@ XWt == Weights(inp.se, EMax)
 \* Interferometer.w_tilde: the tables of the dataset (functions of mask, baselines, real noise; the dirty image of the data)
 BuildTables ==
     /\ phase = "given"
-    /\ LET ext == Extent(U)
-           wr == RealW(XWt)
-       IN obs' = [wt |-> WTable(XSl, B, wr), pre |-> PreTable(ext[1], ext[2], B, wr), ext |-> ext,
-                  dirty |-> Dirty(inp.v, XWt, CC, B)]
+    /\ \E ext \in {Extent(U)} : \E wt \in {XWt} : \E wr \in {RealW(wt)} :
+          obs' = [wt |-> WTable(XSl, B, wr), pre |-> PreTable(ext[1], ext[2], B, wr), ext |-> ext,
+                  dirty |-> Dirty(inp.v, wt, CC, B)]
     /\ XDump
     /\ phase' = "tables"
     /\ UNCHANGED << shape, U, org, B, inp >>
@@ -214,8 +213,8 @@ BuildTables ==
 \* InversionInterferometerMapping
 InvertMapping ==
     /\ phase = "tables"
-    /\ LET t == TOf(inp.objs, CC, B)
-       IN obs' = [t |-> t, d |-> DMap(t, inp.v, XWt), f |-> FMap(t, XWt, inp.objs)]
+    /\ \E t \in {TOf(inp.objs, CC, B)} : \E wt \in {XWt} :
+          obs' = [t |-> t, d |-> DMap(t, inp.v, wt), f |-> FMap(t, wt, inp.objs)]
     /\ phase' = "mapping"
     /\ UNCHANGED << shape, U, org, B, inp >>
 
@@ -255,11 +254,9 @@ PreloadExpandsToFullTable ==
 \* with the total weight on the diagonal and nowhere exceeded
 WTildeIsGramOfPhases ==
     phase = "tables" =>
-        LET c == CC
-            wr == RealW(XWt)
-            tot == ISum(wr)
-            ph == TLCEval([p \in 1 .. Len(c) |-> [k \in 1 .. KK |-> Phase(N(c[p], B[k]))]])
-        IN \A i \in 1 .. Len(c) : \A j \in 1 .. Len(c) :
+        \A c \in {CC} : \A wr \in {RealW(XWt)} : \A tot \in {ISum(wr)} :
+        \A ph \in {[p \in 1 .. Len(c) |-> [k \in 1 .. KK |-> Phase(N(c[p], B[k]))]]} :
+           \A i \in 1 .. Len(c) : \A j \in 1 .. Len(c) :
               /\ obs.wt[i][j] = ISum([k \in 1 .. KK |-> wr[k] * (ph[i][k][1] * ph[j][k][1] + ph[i][k][2] * ph[j][k][2])])
               /\ obs.wt[i][j] = obs.wt[j][i]
               /\ obs.wt[i][i] = tot /\ XAbs(obs.wt[i][j]) <= tot
@@ -287,10 +284,8 @@ XQuad(t, x, wt) ==
     IN ISum([k \in 1 .. Len(t) |-> v[k][1] * v[k][1] * wt[k][1] + v[k][2] * v[k][2] * wt[k][2]])
 FIsSymmetricGram ==
     phase = "mapping" =>
-        LET J == Total(inp.objs)
-            wt == XWt
-            dg == DiagTerm(inp.objs)
-            e(j) == TLCEval([l \in 1 .. J |-> IF l = j THEN 1 ELSE 0])
+        \A J \in {Total(inp.objs)} : \A wt \in {XWt} : \A dg \in {DiagTerm(inp.objs)} :
+        LET e(j) == TLCEval([l \in 1 .. J |-> IF l = j THEN 1 ELSE 0])
             pm(i, j, sg) == TLCEval([l \in 1 .. J |-> (IF l = i THEN 1 ELSE 0) + (IF l = j THEN sg ELSE 0)])
             g(i, j) == obs.f[i][j] - (IF i = j THEN dg[i] ELSE 0)
         IN \A i \in 1 .. J : \A j \in 1 .. J :
@@ -304,12 +299,10 @@ FIsSymmetricGram ==
 \* the diagonal term sits exactly on the unregularised parameters
 BlocksFollowObjectOrder ==
     phase = "mapping" =>
-        LET objs == inp.objs
-            wt == XWt
-            c == CC
-            to == TLCEval([o \in 1 .. Len(objs) |-> TransformMatrix(objs[o].M, c, B)])
-        IN /\ \A o \in 1 .. Len(objs) : \A a \in 1 .. Width(objs[o]) :
-                 obs.d[Off(objs, o) + a] = DataVector(to[o], inp.v, wt)[a]
+        \A objs \in {inp.objs} : \A wt \in {XWt} : \A c \in {CC} :
+        \A to \in {[o \in 1 .. Len(objs) |-> TransformMatrix(objs[o].M, c, B)]} :
+           /\ \A o \in 1 .. Len(objs) : \A dvo \in {DataVector(to[o], inp.v, wt)} : \A a \in 1 .. Width(objs[o]) :
+                 obs.d[Off(objs, o) + a] = dvo[a]
            /\ \A oa \in 1 .. Len(objs) : \A ob \in 1 .. Len(objs) :
                  \A a \in 1 .. Width(objs[oa]) : \A e \in 1 .. Width(objs[ob]) :
                     obs.f[Off(objs, oa) + a][Off(objs, ob) + e]
@@ -321,13 +314,9 @@ BlocksFollowObjectOrder ==
 Reverse(s) == [k \in 1 .. Len(s) |-> s[Len(s) + 1 - k]]
 ReversedListPermutesBlocks ==
     phase = "mapping" =>
-        LET objs == inp.objs
-            rev == Reverse(objs)
-            L == Len(objs)
-            t2 == TOf(rev, CC, B)
-            d2 == DMap(t2, inp.v, XWt)
-            f2 == FMap(t2, XWt, rev)
-            pos(o, a) == Off(rev, L + 1 - o) + a        \* where column a of object o sits in the reversed list
+        \A objs \in {inp.objs} : \A rev \in {Reverse(inp.objs)} : \A L \in {Len(inp.objs)} : \A wt \in {XWt} :
+        \A t2 \in {TOf(rev, CC, B)} : \A d2 \in {TLCEval(DMap(t2, inp.v, wt))} : \A f2 \in {TLCEval(FMap(t2, wt, rev))} :
+        LET pos(o, a) == Off(rev, L + 1 - o) + a        \* where column a of object o sits in the reversed list
         IN \A oa \in 1 .. L : \A a \in 1 .. Width(objs[oa]) :
               /\ d2[pos(oa, a)] = obs.d[Off(objs, oa) + a]
               /\ \A ob \in 1 .. L : \A e \in 1 .. Width(objs[ob]) :
@@ -337,27 +326,24 @@ ReversedListPermutesBlocks ==
 \* sigma (weights times 4) quadruples D and F without its diagonal term
 Homogeneity ==
     phase = "mapping" =>
-        LET J == Total(inp.objs)
-            v2 == [k \in 1 .. KK |-> GScale(2, inp.v[k])]
-            w4 == Weights(inp.se, EMax + 1)
-            dg == DiagTerm(inp.objs)
-        IN /\ DMap(obs.t, v2, XWt) = [j \in 1 .. J |-> 2 * obs.d[j]]
+        \A J \in {Total(inp.objs)} : \A v2 \in {[k \in 1 .. KK |-> GScale(2, inp.v[k])]} :
+        \A w4 \in {Weights(inp.se, EMax + 1)} : \A dg \in {DiagTerm(inp.objs)} :
+           /\ DMap(obs.t, v2, XWt) = [j \in 1 .. J |-> 2 * obs.d[j]]
            /\ DMap(obs.t, inp.v, w4) = [j \in 1 .. J |-> 4 * obs.d[j]]
            /\ Curvature(obs.t, w4) = [i \in 1 .. J |-> [j \in 1 .. J |-> 4 * (obs.f[i][j] - (IF i = j THEN dg[i] ELSE 0))]]
 
 \* THE theorem: with one noise value per baseline the w-tilde formulation equals the mapping formulation
 WTildeEqualsMapping ==
     (phase = "wtilde" /\ EqualNoise(inp.se)) =>
-        LET t == TOf(inp.objs, CC, B)
-        IN obs.d = DMap(t, inp.v, XWt) /\ obs.f = FMap(t, XWt, inp.objs)
+        \A t \in {TOf(inp.objs, CC, B)} : \A wt \in {XWt} :
+           obs.d = DMap(t, inp.v, wt) /\ obs.f = FMap(t, wt, inp.objs)
 \* in general its data vector is still the one of the mapping formalism (the dirty image weights each part with its own
 \* noise), and its curvature matrix is the one of the mapping formalism for the noise map Re(sigma) (1 + i)
 WTildeUsesRealNoise ==
     phase = "wtilde" =>
-        LET t == TOf(inp.objs, CC, B)
-            wt == XWt
-            wrr == [k \in 1 .. KK |-> << wt[k][1], wt[k][1] >>]
-        IN obs.d = DMap(t, inp.v, wt) /\ obs.f = FMap(t, wrr, inp.objs)
+        \A t \in {TOf(inp.objs, CC, B)} : \A wt \in {XWt} :
+        \A wrr \in {[k \in 1 .. KK |-> << wt[k][1], wt[k][1] >>]} :
+           obs.d = DMap(t, inp.v, wt) /\ obs.f = FMap(t, wrr, inp.objs)
 \* the offset-table loop gives the same curvature matrix as the full table
 PreloadRouteEqualsTableRoute ==
     phase = "wtilde" =>
@@ -378,7 +364,6 @@ MappedDataRoutesAgree ==
 \* the summed mapped data is T s for the stacked matrices
 MappedDataSumsOverObjects ==
     phase = "mapped" =>
-        LET objs == inp.objs
-            tot == GMatVec(TOf(objs, CC, B), inp.s)
-        IN \A k \in 1 .. KK : tot[k] = GSum([o \in 1 .. Len(objs) |-> obs.data[o][k]])
+        \A objs \in {inp.objs} : \A tot \in {GMatVec(TOf(objs, CC, B), inp.s)} :
+           \A k \in 1 .. KK : tot[k] = GSum([o \in 1 .. Len(objs) |-> obs.data[o][k]])
 =============================================================================
